@@ -46,13 +46,23 @@ for d in sorted(glob.glob(os.path.join(root, "seeded", "C*-*"))):
     g = cls(a) if a else None
     final[g or f] += 1
 n = sum(first.values())
+sweep_ok = sweep_n = 0
+for d in glob.glob(os.path.join(root, "seeded", "C*-*")):
+    mp = os.path.join(d, "meta.json")
+    if os.path.exists(mp):
+        sw = json.load(open(mp)).get("sweep")
+        if sw:
+            sweep_n += 1
+            if sw.get("result", "").startswith("VIOLATION with a failing input"): sweep_ok += 1
 summ = ("<!-- seedsum begin -->\n**Summary (generated).** %d seeded changes, each confirmed both ways by the main session. First run of the check as it was "
         "when the seed arrived: %d reported with a concrete failing input, %d reported as `no-failing-input-found` (a proof obligation or the "
         "correspondence broke, the search found no input), %d missed (exit 0). After the strengthening the misses and no-input catches triggered: "
         "%d reported with a failing input, %d as `no-failing-input-found`, %d still missed. Every miss was a part of the code outside the model and the tie at "
         "the time (a reader object reused across files, metadata the read path prunes with, a rewriting step between planning and shipping, the meta command "
         "decoding, a body reader failing mid-line …); the repair was always to bring that part into the model with a theorem and a regenerated fact, never to "
-        "special-case the seed.\n<!-- seedsum end -->" % (n, first["input"], first["nofi"], first["missed"], final["input"], final["nofi"], final["missed"]))
+        "special-case the seed. A final regression sweep (`tools/seed_sweep.sh`, every saved seed re-run through `VERIF_OVERLAY` against "
+        "the checks as committed, result under `sweep` in each `meta.json`) reported %d of %d seeds with a concrete failing input, and every property's "
+        "check exited 0 on the unchanged tree right after its seeds.\n<!-- seedsum end -->" % (n, first["input"], first["nofi"], first["missed"], final["input"], final["nofi"], final["missed"], sweep_ok, sweep_n))
 if "<!-- seedsum begin -->" in s2:
     s2 = re.sub(r"<!-- seedsum begin -->.*?<!-- seedsum end -->", lambda _: summ, s2, flags=re.S)
 else:
